@@ -1,3 +1,4 @@
--- This module serves as the root of the `PwVerif` library.
--- Import modules here that should be built as part of the library.
-import PwVerif.Basic
+-- Root of the `PwVerif` library: every property file (and through them the models and lemmas).
+import PwVerif.Props.C10
+import PwVerif.Props.C19
+import PwVerif.Driver
